@@ -233,6 +233,8 @@ def hypothesis_chunk(args: tuple) -> dict:
     sub = 'hypothesis-heavy' if heavy else 'hypothesis-light'
     t0 = time.time()
     state: dict[str, Any] = {'n': 0}
+    done: list = []
+    campaign._history.append(['specs', done])
 
     @seed(hseed)
     @settings(
@@ -250,6 +252,7 @@ def hypothesis_chunk(args: tuple) -> dict:
             return
         state['n'] += 1
         res = runner.run_spec(spec)
+        done.append(spec)
         campaign.fold(agg, spec, res, sub)
         if res['status'] != 'ok':
             spec['decisions'] = res['decisions']
@@ -258,6 +261,10 @@ def hypothesis_chunk(args: tuple) -> dict:
     try:
         session()
     except Found as found:
-        agg['bad'] = {'spec': found.spec, 'result': found.result, 'sub': sub, 'index': state['n'], 'history': []}
+        import json
+
+        if done and done[-1] is found.spec:
+            done.pop()
+        agg['bad'] = {'spec': found.spec, 'result': found.result, 'sub': sub, 'index': state['n'], 'history': json.loads(json.dumps(campaign._history))}
     agg['wall'] = time.time() - t0
     return agg
